@@ -267,13 +267,15 @@ def rule_set_unix(ctx, cfg, F):
                             equal = (not lab["truth"]) if is_ne else lab["truth"]
                             if equal:
                                 found = True
-                                reach = f.reachable(s, avoid=[pb])
+                                reach = Explorer(f).feasible_blocks(start=s, avoid=[pb])
                                 # an error return reached without polling again
                                 rets = []
                                 for x in reach:
                                     for st_ in f.stmts(x):
                                         if st_["s"] == "assign" and st_["lhs"]["l"] == 0 and st_["rv"]["r"] == "agg" and st_["rv"]["kind"].get("variant") == "Err":
                                             rets.append(x)
+                                        if st_["s"] == "assign" and st_["lhs"]["l"] == 0 and st_.get("inl_ret"):
+                                            pass
                                     tx = f.term(x)
                                     if tx["t"] == "call" and tx["dest"]["l"] == 0 and "from_residual" in callee_name(tx):
                                         rets.append(x)
